@@ -55,6 +55,7 @@ type Term struct {
 	c    uint64 // const value / var id / extract hi<<8|lo
 	id   int
 	name string // vars
+	ew   uint8  // effective width: bits above ew are known to be zero
 }
 
 type TermStore struct {
@@ -95,9 +96,88 @@ func (ts *TermStore) mk(op Op, w uint8, c uint64, args ...*Term) *Term {
 	}
 	t := &Term{op: op, w: w, c: c, id: ts.next, n: uint8(len(args))}
 	copy(t.a[:], args)
+	t.ew = effWidth(t)
 	ts.next++
 	ts.tab[k] = t
 	return t
+}
+
+func effWidth(t *Term) uint8 {
+	if t.w == 0 {
+		return 0
+	}
+	mn := func(a, b uint8) uint8 {
+		if a < b {
+			return a
+		}
+		return b
+	}
+	mx := func(a, b uint8) uint8 {
+		if a > b {
+			return a
+		}
+		return b
+	}
+	var e uint8
+	switch t.op {
+	case OConst:
+		e = uint8(bits.Len64(t.c))
+	case OZExt:
+		e = t.a[0].ew
+	case OAdd:
+		e = mx(t.a[0].ew, t.a[1].ew) + 1
+	case OAnd:
+		e = mn(t.a[0].ew, t.a[1].ew)
+	case OOr, OXor:
+		e = mx(t.a[0].ew, t.a[1].ew)
+	case OIte:
+		e = mx(t.a[1].ew, t.a[2].ew)
+	case OLShr:
+		e = t.a[0].ew
+		if t.a[1].isConst() {
+			if t.a[1].c >= uint64(e) {
+				e = 0
+			} else {
+				e -= uint8(t.a[1].c)
+			}
+		}
+	case OShl:
+		if t.a[1].isConst() && t.a[1].c < 64 {
+			x := uint64(t.a[0].ew) + t.a[1].c
+			if x > uint64(t.w) {
+				x = uint64(t.w)
+			}
+			e = uint8(x)
+		} else {
+			e = t.w
+		}
+	case OURem:
+		e = t.a[0].ew
+	case OUDiv:
+		if t.a[1].isConst() && t.a[1].c != 0 {
+			e = t.a[0].ew
+		} else {
+			e = t.w
+		}
+	case OMul:
+		x := uint16(t.a[0].ew) + uint16(t.a[1].ew)
+		if x > uint16(t.w) {
+			x = uint16(t.w)
+		}
+		e = uint8(x)
+	case OConcat:
+		if t.a[0].ew == 0 {
+			e = t.a[1].ew
+		} else {
+			e = t.a[1].w + t.a[0].ew
+		}
+	default:
+		e = t.w
+	}
+	if e > t.w {
+		e = t.w
+	}
+	return e
 }
 
 func mask(w uint8) uint64 {
@@ -132,7 +212,7 @@ func (ts *TermStore) Bool(b bool) *Term {
 }
 
 func (ts *TermStore) Var(w uint8, name string) *Term {
-	t := &Term{op: OVar, w: w, c: uint64(len(ts.vars)), id: ts.next, name: name}
+	t := &Term{op: OVar, w: w, c: uint64(len(ts.vars)), id: ts.next, name: name, ew: w}
 	ts.next++
 	ts.vars = append(ts.vars, t)
 	return t
@@ -233,6 +313,20 @@ func (ts *TermStore) Bin(op Op, a, b *Term) *Term {
 	w := a.w
 	if a.isConst() && b.isConst() {
 		return ts.Const(w, evalBin(op, w, a.c, b.c))
+	}
+	// narrow additions of small zero-extended values (keeps adders short for the solver)
+	if op == OAdd && w > 8 {
+		e := a.ew
+		if b.ew > e {
+			e = b.ew
+		}
+		e++
+		if e < 8 {
+			e = 8
+		}
+		if e < w && !(a.isConst() && a.c == 0) && !(b.isConst() && b.c == 0) {
+			return ts.ZExt(ts.Bin(OAdd, ts.Extract(a, e-1, 0), ts.Extract(b, e-1, 0)), w)
+		}
 	}
 	switch op {
 	case OAdd:
@@ -520,6 +614,9 @@ func (ts *TermStore) Extract(a *Term, hi, lo uint8) *Term {
 		if lo >= in.w {
 			return ts.Const(w, 0)
 		}
+		if lo == 0 {
+			return ts.ZExt(in, w)
+		}
 	case OSExt:
 		in := a.a[0]
 		if hi < in.w {
@@ -536,6 +633,18 @@ func (ts *TermStore) Extract(a *Term, hi, lo uint8) *Term {
 	case OExtract:
 		ilo := uint8(a.c & 0xff)
 		return ts.Extract(a.a[0], hi+ilo, lo+ilo)
+	case OIte:
+		if lo == 0 && (a.a[1].isConst() || a.a[2].isConst() || a.a[1].op == OZExt || a.a[2].op == OZExt) {
+			return ts.Ite(a.a[0], ts.Extract(a.a[1], hi, lo), ts.Extract(a.a[2], hi, lo))
+		}
+	case OAdd, OAnd, OOr, OXor:
+		if lo == 0 && a.ew <= w {
+			// low bits of these operators depend only on low bits of the operands
+			return ts.Bin(a.op, ts.Extract(a.a[0], hi, 0), ts.Extract(a.a[1], hi, 0))
+		}
+	}
+	if lo >= a.ew {
+		return ts.Const(w, 0)
 	}
 	return ts.mk(OExtract, w, uint64(hi)<<8|uint64(lo), a)
 }
